@@ -507,15 +507,20 @@ def check_detector(ctx, case, det_spatial, det_reduced, unfold):
 def region_strategy(draw, sym, exact, allow_thin=False):
     """Unreduced slice per axis in reduced coordinates (plane at 0)."""
     out = []
+    # most cases cross at least one plane (the untouched case only checks "returned unchanged")
+    forced = draw(st.sampled_from([a for a in range(3) if sym[a]])) if draw(st.integers(0, 7)) else None
     for a in range(3):
         if sym[a] == 0:
             lo = draw(st.integers(0, 2))
             out.append([lo, lo + draw(st.integers(1, 3))])
             continue
-        rel = draw(st.sampled_from(["straddle", "straddle", "straddle", "asym", "start", "start", "inside"]))
+        if a == forced:
+            rel = draw(st.sampled_from(["straddle", "straddle", "asym"]))
+        else:
+            rel = draw(st.sampled_from(["straddle", "straddle", "straddle", "asym", "start", "start", "inside"]))
         on_plane = exact and sym[a] == -1 and a in (0, 1)
         kmin = 2 if (on_plane and not allow_thin) else 1
-        k = draw(st.integers(kmin, 3))
+        k = draw(st.sampled_from([x for x in (1, 2, 2, 3, 3) if x >= kmin]))
         if rel == "straddle":
             out.append([-k, k])
         elif rel == "asym":
